@@ -134,8 +134,9 @@ class Unit:
 
 
 class Interp:
-    def __init__(self, units, hooks=None, fuel=20000):
-        """units: {name: rows}"""
+    def __init__(self, units, hooks=None, fuel=20000, inputs=None):
+        """units: {name: rows}; inputs: values returned by the external input function inp(k)"""
+        self.inputs = inputs
         self.units = {n: Unit(rows) for n, rows in units.items()}
         self.outs = []
         self.hooks = hooks or {}
@@ -195,6 +196,8 @@ class Interp:
             a = a.parent
         if name in BUILTINS:
             return BUILTINS[name]
+        if name == "inp" and self.inputs is not None:
+            return Builtin(lambda i, p, n: i.inputs[p[0]])
         raise GirError(f"unbound name {name}")
 
     def val(self, text, act):
@@ -441,6 +444,9 @@ class Interp:
 
     def op_if_stmt(self, r, act):
         c = self.val(r.get("condition"), act)
+        h = self.hooks.get("decide")
+        if h:
+            c = h(act, r, c)
         if c:
             return self.exec_block(r.get("then_body"), act)
         return self.exec_block(r.get("else_body"), act)
